@@ -19,7 +19,9 @@ class CallOp(Operation):
 
 class FuncOp(Operation):
     def __init__(self, name, function_type=None, region=None, visibility=None):
-        self.sym_name = StringAttr(name)
+        self.sym_name = StringAttr(name) if isinstance(name, str) else name
+        self.function_type = function_type
+        self.sym_visibility = StringAttr(visibility) if isinstance(visibility, str) else visibility
         self._init_op([], [], [])
         if region is not None:
             self.body = region
